@@ -31,6 +31,30 @@ pub fn edge_scalars(rng: &mut impl RngCore) -> Vec<(&'static str, RS)> {
     ]
 }
 
+/// Key for the idx-th case of a monitor whose keys are otherwise random: every fourth case takes
+/// one of the deterministic edge scalars (1, 2, 3, r-1, r-2, 2^254, 2^255-19 mod r, (r-1)/2) so
+/// that every entry point also sees keys such as 1 (public key = generator) and r-1.
+pub fn key_for(idx: u64, rng: &mut impl RngCore) -> RS {
+    let r = random_scalar(rng); // always drawn, so the rest of the case's stream does not shift
+    if idx % 4 == 0 {
+        let e = edge_scalars(&mut rand_chacha_dummy());
+        e[((idx / 4) % 8) as usize].1
+    } else {
+        r
+    }
+}
+
+fn rand_chacha_dummy() -> impl RngCore {
+    struct Z;
+    impl RngCore for Z {
+        fn next_u32(&mut self) -> u32 { 7 }
+        fn next_u64(&mut self) -> u64 { 7 }
+        fn fill_bytes(&mut self, d: &mut [u8]) { for x in d.iter_mut() { *x = 7; } }
+        fn try_fill_bytes(&mut self, d: &mut [u8]) -> Result<(), rand_core::Error> { self.fill_bytes(d); Ok(()) }
+    }
+    Z
+}
+
 pub fn random_scalar(rng: &mut impl RngCore) -> RS {
     loop {
         let mut wide = [0u8; 64];
